@@ -36,7 +36,7 @@ def renderOf (tbl : List FloatEntry) (i : Nat) : Bool → Option Nat → FloatCl
   | some e => e.text
   | none => [0, 63, 63, 63]
 
-def parseArg (tbl : List FloatEntry) (i : Nat) (tok : String) : Arg :=
+def parseArg (tbl : List FloatEntry) (i : Nat) (tok : String) (dm : Mode := .checkValidity) : Arg :=
   let (k, v) := match tok.splitOn ":" with
     | [a, b] => (a, b)
     | _ => (tok, "")
@@ -51,17 +51,17 @@ def parseArg (tbl : List FloatEntry) (i : Nat) (tok : String) : Arg :=
   | "S" | "ss" | "sv" | "s8" | "v8" => .str (parseUnits 8 v)
   | "cn" | "n16" | "n32" | "nw" | "n8" => .nullStr
   -- wide text: pointers (units before the first zero unit), std::basic_string, std::basic_string_view; wchar_t is 32-bit here
-  | "p16" => .wide .utf16 ((parseUnits 16 v).takeWhile (· != 0))
-  | "s16" | "v16" => .wide .utf16 (parseUnits 16 v)
-  | "p32" | "pw" => .wide .utf32 ((parseUnits 32 v).takeWhile (· != 0))
-  | "s32" | "v32" | "sw" | "vw" => .wide .utf32 (parseUnits 32 v)
+  | "p16" => .wide .utf16 dm ((parseUnits 16 v).takeWhile (· != 0))
+  | "s16" | "v16" => .wide .utf16 dm (parseUnits 16 v)
+  | "p32" | "pw" => .wide .utf32 dm ((parseUnits 32 v).takeWhile (· != 0))
+  | "s32" | "v32" | "sw" | "vw" => .wide .utf32 dm (parseUnits 32 v)
   | "d" | "fl" => .float (renderOf tbl i)
   | _ => .nullStr
 
-def parseArgs (tbl : List FloatEntry) (s : String) : List Arg :=
+def parseArgs (tbl : List FloatEntry) (s : String) (dm : Mode := .checkValidity) : List Arg :=
   if s == "-" || s.isEmpty then [] else
   let toks := s.splitOn ";"
-  (List.range toks.length).map fun i => parseArg tbl i (toks.getD i "")
+  (List.range toks.length).map fun i => parseArg tbl i (toks.getD i "") dm
 
 def fmtEvent : Event → String
   | .append bs => "a" ++ fmtUnits 8 bs
@@ -147,7 +147,7 @@ def handle (c : Case) : Verdict :=
     | some (.sint w _) => s!"i{w}" | some (.uint w _) => s!"u{w}" | some (.char _) => "char" | some (.wchar _) => "wchar"
     | some (.char8 _) => "c8" | some (.char16 _) => "c16" | some (.char32 _) => "c32" | some (.bool _) => "bool"
     | some (.str _) => "str" | some .nullStr => "null" | some (.float _) => "float" | none => "none"
-    | some (.wide .utf16 _) => "wide16" | some (.wide _ _) => "wide32"
+    | some (.wide .utf16 _ _) => "wide16" | some (.wide _ _ _) => "wide32"
   { corr := ms == obs,
     spec := specOk,
     model := ms,
